@@ -443,7 +443,7 @@ class FlowControlAsyncPipe:
 
             # Try to pump a packet
             if self.can_pump():
-                packet = self.queue.pop()
+                packet = self.queue.popleft()
                 self.write_to_sink(packet)
                 self.queued_bytes -= len(packet)
 
